@@ -13,7 +13,15 @@
   Props/C04/Classes.lean  per-class eager_subs index arithmetic: Slice (incl. Slice-into-Slice, 37c3acd), Stack with a
                           slice = python list slicing, Cat (number: `locate`; slice: `catPStart_spec`, `catSlice_sem`,
                           f0eee47) with the pre-fix witnesses.
+  Props/C04/Gauss.lean    Gaussian._eager_subs_real over rational matrices with the pairs as an ORDERED list:
+                          `gauss_subs_real_sem` (any order), `gauss_subs_real_perm`, `gauss_subs_order_witness` (the seeded
+                          defects' shape: values gathered in the order of the incoming pairs), `gauss_subs_full_sem`.
+  Props/C04/Classes2.lean MarkovProduct/Scatter (`mp_subs_sem` under `noSeqClash`, `mp_subs_seq_witness`, `scatter_rename_sem`),
+                          Constant (`const_subs_sub/sup/nodup`), Delta (`delta_subs_ground`, `delta_subs_rename`,
+                          `logIndicatorPlus_spec`), Independent (`indep_subs_rename`, `indep_subs_value`).
 -/
 import FunsorVerif.Props.C04.NT
 import FunsorVerif.Props.C04.Subst
 import FunsorVerif.Props.C04.Classes
+import FunsorVerif.Props.C04.Gauss
+import FunsorVerif.Props.C04.Classes2
